@@ -20,7 +20,7 @@ ID = "C09"
 PROPS_FILE = "Props/C09.v"
 IMPORTS = "From Verde Require Import Lib.QList Model.BlockReduce Model.Weights Model.BlockGeo."
 SHARD = 40
-RULE = ("every case of every stream configures the estimator by one of five routes in fixed shares (one fifth each, cycling in generation "
+RULE = ("\"no weights\" is passed alternately as None and as a tuple of None (one per component), a single weight array bare or as a 1-tuple; every case of every stream configures the estimator by one of five routes in fixed shares (one fifth each, cycling in generation "
         "order): constructor arguments; construction with deliberately different options followed by set_params(**all options); the same "
         "followed by plain attribute assignment of every option; sklearn.base.clone of a configured instance; construction with one or two "
         "options different (cycling over all options), one filter() call, then those options changed (set_params / assignment alternately) - the "
@@ -255,19 +255,51 @@ def configured(vd, cls_name, opts, mode, step=0, first=None):
     raise ValueError(mode)
 
 
-def _call_args(coords, data, weights, tuple1):
+_SPELL = [0]
+
+
+def next_spelling(options):
+    k = _SPELL[0]
+    _SPELL[0] += 1
+    return options[k % len(options)]
+
+
+def _call_args(coords, data, weights, tuple1, wspell=None):
+    """the arguments of filter(); wspell: how the weights argument is spelled -
+    no weights: None | "tuple_none" (None,)*ncomp | "list_none" [None]*ncomp | "mixed" (None, array, ...) |
+    "mixed_last" (array, ..., None) (the last three only where the call must be rejected);
+    one weight array: bare | "tuple" (w,); several: always a tuple"""
     d = tuple(data) if len(data) != 1 or tuple1 else data[0]
-    w = None if weights is None else (tuple(weights) if len(weights) != 1 else weights[0])
+    if weights is None:
+        some = lambda comp: np.full(np.shape(comp), 2.0)
+        if wspell == "tuple_none":
+            w = tuple([None] * len(data))
+        elif wspell == "list_none":
+            w = [None] * len(data)
+        elif wspell == "mixed" and len(data) >= 2:
+            w = tuple([None] + [some(c) for c in data[1:]])
+        elif wspell == "mixed_last" and len(data) >= 2:
+            w = tuple([some(c) for c in data[:-1]] + [None])
+        elif wspell in ("mixed", "mixed_last"):
+            w = (None,)
+        else:
+            w = None
+    elif len(weights) == 1:
+        w = (weights[0],) if wspell == "tuple" else weights[0]
+    else:
+        w = tuple(weights)
     return tuple(coords), d, w
 
 
-def replay(cls_name, red, opts, mode, step, twice, tuple1, coords, data, weights):
+def replay(cls_name, red, opts, mode, step, twice, tuple1, coords, data, weights, wspell=None):
     """re-run one observation (used by the repro strings of the cases)"""
     import verde as vd
     opts = dict(opts)
     if cls_name == "BlockReduce":
         opts["reduction"] = getattr(np, red)
-    c, d, w = _call_args(coords, data, weights, tuple1)
+    c, d, w = _call_args(coords, data, weights, tuple1, wspell)
+    print("weights argument:", "None" if w is None else type(w).__name__ + " of " + ", ".join("None" if x is None else "array" for x in w)
+          if isinstance(w, (tuple, list)) else "array")
     est = configured(vd, cls_name, opts, mode, step, first=(c, d, w))
     before = params_snapshot(est)
     if twice:
@@ -290,7 +322,7 @@ def _same(a, b):
     return a.shape == b.shape and a.dtype == b.dtype and a.tobytes() == b.tobytes()
 
 
-def observe(vd, red, coords, data, weights, kw, tuple1=False, twice=False, mode="ctor", step=0):
+def observe(vd, red, coords, data, weights, kw, tuple1=False, twice=False, mode="ctor", step=0, wspell=None):
     """run the real code; returns ('ok', coords_list, data_list) | ('ValueError',) | ('other', name).
     twice: the instance has already filtered other data; its result must be that of a fresh instance;
     mode/step: how the options were put in force (see configured)"""
@@ -298,7 +330,7 @@ def observe(vd, red, coords, data, weights, kw, tuple1=False, twice=False, mode=
     params_ok = True
     try:
         opts = dict(kw, reduction=getattr(np, REDS[red][3:]))
-        c_, d, w = _call_args(coords, data, weights, tuple1)
+        c_, d, w = _call_args(coords, data, weights, tuple1, wspell)
         br = configured(vd, "BlockReduce", opts, mode, step, first=(c_, d, w))
         params = params_snapshot(br)
         if twice:
@@ -345,7 +377,12 @@ def make_case(vd, red, coords, data, weights, kw, kind, expect_valid=True):
     mode, step = kw.get("_mode") or next_mode()
     if not expect_valid:
         mode = "ctor"
-    obs = observe(vd, red, coords, data, weights, kwc, bool(kw.get("_tuple1")), bool(kw.get("_twice")), mode, step)
+    wspell = kw.get("_wspelling")
+    if wspell is None and expect_valid:
+        # "no weights" as None or as a tuple of None; a single weight array bare or as a 1-tuple
+        wspell = next_spelling(["none", "tuple_none"]) if weights is None else (
+            next_spelling(["bare", "tuple"]) if len(weights) == 1 else "tuple")
+    obs = observe(vd, red, coords, data, weights, kwc, bool(kw.get("_tuple1")), bool(kw.get("_twice")), mode, step, wspell)
     tags = list(kw.get("_layouts") or []) + ["C"] * 16
     tc, td, tw = tags[:len(coords)], tags[len(coords):len(coords) + len(data)], tags[len(coords) + len(data):]
     cw = "None" if weights is None else "(Some %s)" % _cdll(weights)
@@ -367,13 +404,15 @@ def make_case(vd, red, coords, data, weights, kw, kind, expect_valid=True):
         REDS[red][3:], kwc, mode, step, bool(kw.get("_twice")), bool(kw.get("_tuple1")),
         ", ".join(_fmt(c, t) for c, t in zip(coords, tc)), ", ".join(_fmt(d, t) for d, t in zip(data, td)),
         "None" if weights is None else "[%s]" % ", ".join(_fmt(w, t) for w, t in zip(weights, tw))))
+    repro = repro[:-1] + ", %r)" % wspell
     inp = {"reduction": REDS[red], "kwargs": kwc, "coordinates": [np.asarray(c).tolist() for c in coords],
            "data": [np.asarray(d).tolist() for d in data],
            "weights": None if weights is None else [np.asarray(w).tolist() for w in weights],
            "labels_from_block_split": labels,
            "dtypes": [str(np.asarray(a).dtype) for a in list(coords) + list(data) + (list(weights) if weights is not None else [])],
            "layouts": kw.get("_layouts"), "instance_reused": bool(kw.get("_twice")),
-           "weight_patterns": kw.get("_wpatterns"), "configured_by": mode, "config_step": step}
+           "weight_patterns": kw.get("_wpatterns"), "configured_by": mode, "config_step": step,
+           "weights_spelled": wspell}
     out = [obs[0]] + ([[a.tolist() for a in obs[1]], [a.tolist() for a in obs[2]]] if obs[0] == "ok" else list(obs[1:-1])) \
         + [{"get_params_unchanged": bool(obs[-1])}]
     return Case(inp, out, term, repro, kind, nontrivial=nontrivial)
@@ -740,6 +779,7 @@ def generate(tier, seed):
     import verde as vd
     rnd = random.Random(seed)
     _COUNTER[0] = 0
+    _SPELL[0] = 0
     cases = []
     for cfg in edge_cases(rnd, vd):
         cases.append(make_case(vd, *cfg, kind="edge"))
